@@ -79,22 +79,39 @@ func isLogStmt(f *gofacts.File, st ast.Stmt) bool {
 	return true
 }
 
-// stripLogs removes pure logging statements from every block of the file (in place on the parsed copy).
+// stripLogs removes pure logging statements from every block of the file (in place on the parsed copy). The textual
+// forms above mean what they say only where `s` is a *Session / *Echo (whose Logger, KeyZaps, RemoteZap bodies are
+// pinned) and `cnf` the start options of a *Server method: elsewhere nothing is removed.
 func stripLogs(f *gofacts.File) {
-	ast.Inspect(f.AST, func(x ast.Node) bool {
-		blk, ok := x.(*ast.BlockStmt)
-		if !ok {
-			return true
+	for _, d := range f.AST.Decls {
+		fd, ok := d.(*ast.FuncDecl)
+		if !ok || fd.Body == nil || fd.Recv == nil || len(fd.Recv.List) != 1 {
+			continue
 		}
-		var keep []ast.Stmt
-		for _, st := range blk.List {
-			if !isLogStmt(f, st) {
-				keep = append(keep, st)
+		recvType := f.Src(fd.Recv.List[0].Type)
+		recvName := ""
+		if len(fd.Recv.List[0].Names) == 1 {
+			recvName = fd.Recv.List[0].Names[0].Name
+		}
+		okRecv := (recvName == "s" && (recvType == "*Session" || recvType == "*Echo" || recvType == "*Server"))
+		if !okRecv {
+			continue
+		}
+		ast.Inspect(fd.Body, func(x ast.Node) bool {
+			blk, ok := x.(*ast.BlockStmt)
+			if !ok {
+				return true
 			}
-		}
-		blk.List = keep
-		return true
-	})
+			var keep []ast.Stmt
+			for _, st := range blk.List {
+				if !isLogStmt(f, st) {
+					keep = append(keep, st)
+				}
+			}
+			blk.List = keep
+			return true
+		})
+	}
 }
 
 // a separator before a closing brace carries no meaning (`{ a; b }` ≡ `{ a; b; }`, `T{x: 1}` ≡ `T{x: 1,}`)
